@@ -720,7 +720,7 @@ fn run_exhaustive_shard(
 
 /// Sections whose cases may kill the process (abort, stack overflow): their shards run as child processes.
 pub fn isolated(prop: &str, section: &str) -> bool {
-    prop == "C07" && (section == "commands" || section == "text" || section == "commands-large")
+    prop == "C07" && (section == "commands" || section == "text" || section == "commands-large" || section == "regressions")
 }
 
 fn stats_to_json(st: &Stats) -> Value {
